@@ -23,16 +23,19 @@ type PeerWorld struct {
 	Aux               []string
 	LibMaster         bool
 	MOTD              []string
-	Gzip              bool
-	Seg               int
-	LibMsgs           []MsgSpec                     // queued at the station under test
-	PeerMsgs          []MsgSpec                     // queued at the peer
-	Truth             map[string][]byte             // canonical bytes of every message
-	LibPolicy         map[string]fbb.ProposalAnswer // the station's handler answers to peer proposals
-	Batched           bool
-	Plan              b2fref.PeerPlan
-	Secure            func(fbb.Address) (string, error) // secure login callback (nil = none registered)
-	Tag               string
+	// Session, when set, is used instead of a new Session value: a program that retries on the Session it already has
+	// (Exchange may be called again as long as the session is not done, e.g. after a refused login or a lost link).
+	Session   *fbb.Session
+	Gzip      bool
+	Seg       int
+	LibMsgs   []MsgSpec                     // queued at the station under test
+	PeerMsgs  []MsgSpec                     // queued at the peer
+	Truth     map[string][]byte             // canonical bytes of every message
+	LibPolicy map[string]fbb.ProposalAnswer // the station's handler answers to peer proposals
+	Batched   bool
+	Plan      b2fref.PeerPlan
+	Secure    func(fbb.Address) (string, error) // secure login callback (nil = none registered)
+	Tag       string
 	// Status (optional) is registered as the station's StatusUpdater; WriteDelay paces the link
 	// (per write, [station->peer, peer->station]).
 	Status     fbb.StatusUpdater
@@ -212,6 +215,12 @@ func GenPeerWorld(r *rand.Rand, tag string) (*PeerWorld, error) {
 		kind := []byte{'+', '+', '+', '+', '-', '='}[r.Intn(6)]
 		toks := AnswerTokens[kind]
 		pl.Answers[m.MID] = toks[r.Intn(len(toks))]
+		// one accepted message in eight is taken from an offset > 0 (the remote holds the beginning from an earlier,
+		// interrupted session): every form of the offset answer; the compressed message is longer than 40 bytes whatever it is
+		if kind == '+' && len(c) >= 40 && r.Intn(8) == 0 {
+			off := []int{1, 2, 5, 6, 7, 31}[r.Intn(6)]
+			pl.Answers[m.MID] = fmt.Sprintf([]string{"!%d", "A%d", "a%d"}[r.Intn(3)], off)
+		}
 	}
 	for i := 0; i < np; i++ {
 		m := GenMsg(r, GenMID(r, "P", i), w.PeerCall, w.LibCall)
@@ -288,7 +297,8 @@ type PeerRun struct {
 	Station *mem.Station
 	Events  []mem.Event
 	Truth   map[string]b2fref.LibMsg
-	LibWire []byte // bytes the station wrote (when recorded)
+	LibWire []byte       // bytes the station wrote (when recorded)
+	Session *fbb.Session // the station's Session value (see PeerWorld.Session)
 }
 
 // Run executes the world once. edits (optional) alter the byte streams in transit:
@@ -298,9 +308,12 @@ func (w *PeerWorld) Run(record bool, edits [2][]vpipe.Edit) *PeerRun {
 	defer SetGzip(false)
 	lg := &mem.Log{}
 	st, truth := w.NewStation(lg)
-	sess := w.NewLibSession(st.AsHandler())
+	sess := w.Session
+	if sess == nil {
+		sess = w.NewLibSession(st.AsHandler())
+	}
 	ea, eb, link := vpipe.New(vpipe.Plan{Seed: w.Plan.Seed, Seg: w.Seg, CutDir: vpipe.NoCut, DetectDeadlock: true, Edits: edits, WriteDelay: w.WriteDelay}, record)
-	pr := &PeerRun{Station: st, Truth: truth}
+	pr := &PeerRun{Station: st, Truth: truth, Session: sess}
 	done := make(chan struct{}, 1)
 	go runExchange(sess, ea, &pr.Lib, done)
 	plan := w.Plan
